@@ -154,7 +154,7 @@ void harness (void)
   C[VERIF_NC] = 0;
   int n = 0; while (n < VERIF_NC && C[n] != 0) n++;          /* reference strlen */
   char cj = C[j];
-  if (FITS (n, dlen0)) { PT (0, dlen0 + n); PT (1, dk); PT (2, dlen0 + j); }
+  if (FITS (n, dlen0)) { PT (0, dlen0 + n); PT (1, dk); PT (2, (long) dlen0 + j); }
   ret = _dbus_string_append ((DBusString *) &S, C);
   ENS_OK (&S, "_dbus_string_append");
   POST (IMP (ret, S.len == dlen0 + n && S.str[S.len] == 0), "_dbus_string_append: TRUE => len grown by strlen(buffer), NUL terminated");
@@ -305,7 +305,9 @@ void harness (void)
 #endif
   int at = at0;
   int j = nondet_int (); __CPROVER_assume (j >= 0 && j < 8); unsigned char oj = octets[j];
-  long pos = at0; while (pos % al != 0) pos++;        /* reference: smallest multiple of the alignment >= at0 (<= 7 steps) */
+  /* reference: smallest multiple of the (power-of-two) alignment >= at0: at most 7 single steps, written out (no loop) */
+#define STEP if ((pos & (al - 1)) != 0) pos++;
+  long pos = at0; STEP STEP STEP STEP STEP STEP STEP
   long delta = (pos - at0) + gap;
   _Bool fits = (long) dlen0 + delta <= MAXLEN;
   if (fits) { PT (0, dlen0 + delta); PT (1, dk < at0 ? dk : dk + delta); PT (2, z); PT (3, pos + j); }
@@ -331,7 +333,7 @@ void harness (void)
   ENS_OK (&S, WHO);
   POST (IMP (!fits, !ret), WHO ": result longer than the maximum => FALSE");
 #if VERIF_FN == 18 || VERIF_FN == 22
-  POST (IMP (ret, at == pos && at % al == 0 && at >= at0 && at - at0 < al), WHO ": TRUE => *insert_at is the aligned position");
+  POST (IMP (ret, at == pos && (at & (al - 1)) == 0 && at >= at0 && at - at0 < al), WHO ": TRUE => *insert_at is the aligned position");
   POST (IMP (!ret, at == at0), WHO ": FALSE => *insert_at unchanged");
 #endif
   POST (IMP (ret, S.len == dlen0 + delta && S.str[S.len] == 0), WHO ": TRUE => len grown by padding + gap, NUL terminated");
@@ -343,7 +345,16 @@ void harness (void)
   POST (octets[j] == oj, WHO ": the caller's octets are not modified");
 #endif
   POST (IMP (!ret, UNCHANGED (&S, d)), WHO ": FALSE => length and every byte unchanged");
-  if (ret && pos > at0 && at0 < dlen0) REACH ("padded-in-the-middle"); if (ret && delta == 0) REACH ("already-aligned-no-gap"); if (!ret && fits) REACH ("oom");
+#if VERIF_FN == 23
+  if (ret && pos > at0) REACH ("padded-at-the-end"); if (ret && delta == 0) REACH ("already-aligned"); if (!ret && fits) REACH ("oom");
+#else
+  if (ret && pos > at0 && at0 < dlen0) REACH ("padded-in-the-middle"); if (!ret && fits) REACH ("oom");
+#if VERIF_FN == 18 || VERIF_FN == 22
+  if (ret && delta == 0) REACH ("already-aligned-no-gap");
+#else
+  if (ret && pos == at0) REACH ("already-aligned");
+#endif
+#endif
 
 #elif VERIF_FN == 24   /* _dbus_string_alloc_space: "Preallocate extra_bytes such that a future lengthening ... is guaranteed to succeed" */
   AMOUNT (extra, dlen0);
